@@ -30,7 +30,9 @@ fn write_beginning<W: Write>(instance: &v1::Instance, out: &mut W) -> Result<(),
         .description
         .clone()
         .and_then(|descr| descr.name)
-        .unwrap_or(String::from("Converted OMMX problem"));
+        .unwrap_or(String::from("Converted OMMX problem"))
+        // the NAME entry is a single line of the file
+        .replace(['\n', '\r'], " ");
     let obj_sense = match instance.sense {
         // v1::instance::Sense::Maximize
         // TODO more robust way to write this?
